@@ -548,6 +548,8 @@ class PSym(Model):
                     return PSym([self.shape[0], 1], lambda i: self.elem([i[0]]), self.label, False)
                 if len(self.shape) == 1 and a == [1, -1]:
                     return PSym([1, self.shape[0]], lambda i: self.elem([i[1]]), self.label, False)
+                if len(self.shape) == 0 and a in ([-1, 1], [1, -1]):
+                    return PSym([1, 1], lambda i: self.elem([]), self.label, False)
                 raise Unsupported("reshape of sympy object array")
             return Builtin("reshape", reshape)
         if name == "subs":
@@ -641,11 +643,38 @@ def make_np(eng_globals_extra=None):
         return Transparent()
 
     def resize(eng, arr, shape):
-        eng.used_models.add("A-NP2:np.resize to the same number of elements keeps element order")
-        shp = eng.as_seq(shape).items
-        if isinstance(arr, PSym) and len(arr.shape) == 2:
-            return PSym(arr.shape, arr.elem, arr.label, False)
+        """np.resize(a, new_shape): the flattened data of `a`, repeated cyclically, in row-major order of the new shape
+        (NOT broadcasting).  Modelled for 2-d `a` of shape (r, c) and 2-d target (R, C):
+        element (i, j) = a.flat[(i*C + j) mod (r*c)]; only the cases that need no modular arithmetic are decided:
+        c == C (rows repeat cyclically; decided when r == R or r == 1) - otherwise Unsupported."""
+        eng.used_models.add("A-NP2:np.resize repeats the flattened data cyclically in row-major order")
+        shp = [zi(x) for x in eng.as_seq(shape).items]
+        if isinstance(arr, (PSym, PArr)) and len(arr.shape) == 2 and len(shp) == 2:
+            r, c = (d if not isinstance(d, int) else z3.IntVal(d) for d in arr.shape)
+            R, C = shp
+            if eng.valid(c == C):
+                if eng.valid(r == R):
+                    return arr
+                if eng.valid(r == 1):
+                    return type(arr)([R, C], lambda i: arr.elem([z3.IntVal(0), i[1]]), arr.label, False) if isinstance(arr, PSym) else \
+                        PArr([R, C], lambda i: arr.elem([z3.IntVal(0), i[1]]), arr.kind, arr.is_object, arr.label)
+            raise Unsupported("np.resize to a shape with a different row length (cyclic tiling is not broadcasting)")
         raise Unsupported("np.resize")
+
+    def broadcast_to(eng, arr, shape):
+        eng.used_models.add("A-NP2:np.broadcast_to follows the broadcasting rules")
+        shp = [x if isinstance(x, int) else zi(x) for x in eng.as_seq(shape).items]
+        if isinstance(arr, (PSym, PArr)):
+            out, ix1, _ix2 = broadcast_shapes(eng, arr.shape, shp)
+            for d_out, d_t in zip(out, shp):
+                e1 = d_out if not isinstance(d_out, int) else z3.IntVal(d_out)
+                e2 = d_t if not isinstance(d_t, int) else z3.IntVal(d_t)
+                if e1.get_id() != e2.get_id():
+                    eng.oblige(f"broadcast_to:shape-compatible@{eng.site()}", e1 == e2)
+            if isinstance(arr, PSym):
+                return PSym(shp, lambda i: arr.elem(ix1(i)), arr.label, False)
+            return PArr(shp, lambda i: arr.elem(ix1(i)), arr.kind, arr.is_object, arr.label)
+        raise Unsupported("np.broadcast_to")
 
     def array(eng, x, dtype=None):
         if isinstance(x, PSym):
@@ -656,7 +685,7 @@ def make_np(eng_globals_extra=None):
 
     d = {"where": Builtin("np.where", where), "abs": Builtin("np.abs", abs_), "equal": Builtin("np.equal", equal),
          "isclose": Builtin("np.isclose", isclose), "any": Builtin("np.any", np_any), "all": Builtin("np.all", np_all),
-         "errstate": Builtin("np.errstate", errstate), "resize": Builtin("np.resize", resize), "array": Builtin("np.array", array),
+         "errstate": Builtin("np.errstate", errstate), "resize": Builtin("np.resize", resize), "broadcast_to": Builtin("np.broadcast_to", broadcast_to), "array": Builtin("np.array", array),
          "ndarray": TypeObj("ndarray")}
     d.update(eng_globals_extra or {})
     return Namespace("np", d)
